@@ -115,7 +115,10 @@ struct GenStats
 class ProtoGenerator
 {
   public:
-    ProtoGenerator(Rng& rng, GenStats& st) : rng_(rng), st_(st) {}
+    // deep: a separate family in which three universe levels with translated/rotated placements
+    // are the rule (large world, few slots per unit, most slots filled by a daughter universe);
+    // with deep == false the generator consumes exactly the random stream it always did
+    ProtoGenerator(Rng& rng, GenStats& st, bool deep = false) : rng_(rng), st_(st), deep_(deep) {}
 
     // A shape centred at the origin of its own frame, with the half-widths of an
     // axis-aligned box inscribed in it (where contents may be placed)
@@ -127,7 +130,7 @@ class ProtoGenerator
 
     std::shared_ptr<UnitProto> make_global(int max_depth)
     {
-        double scale = rng_.loguniform(4.0, 60.0);
+        double scale = deep_ ? rng_.loguniform(60.0, 300.0) : rng_.loguniform(4.0, 60.0);
         Bound b = this->make_bound(scale, "world");
         return this->make_unit(b, true, max_depth, 0, "global");
     }
@@ -135,6 +138,7 @@ class ProtoGenerator
   private:
     Rng& rng_;
     GenStats& st_;
+    bool deep_ = false;
     int counter_ = 0;
 
     std::string next_label(char const* base) { return std::string(base) + std::to_string(counter_++); }
@@ -268,6 +272,12 @@ class ProtoGenerator
             n[i] = int(rng_.integer(1, 2));
         if (rng_.coin(0.2))
             n[int(rng_.integer(0, 2))] = 3;
+        if (deep_)
+        {
+            n[0] = n[1] = n[2] = 1;
+            if (rng_.coin(0.5))
+                n[int(rng_.integer(0, 2))] = 2;
+        }
         struct Slot
         {
             Real3 c;
@@ -309,7 +319,7 @@ class ProtoGenerator
             bool rotated = false;
             // (objects are kept larger than ~0.1: tiny ellipsoids send the surface simplifier of the
             // construction code into unbounded recursion -- outside the scope of this engine)
-            if (depth_left > 0 && rho > 0.6 && rng_.coin(0.35))
+            if (depth_left > 0 && rho > 0.6 && rng_.coin(deep_ ? 0.85 : 0.35))
             {
                 // daughter universe
                 std::shared_ptr<UnitProto> proto;
@@ -407,10 +417,10 @@ class ProtoGenerator
     }
 };
 
-inline OrangeInput generate_orangeinp(Rng& rng, GenStats& st)
+inline OrangeInput generate_orangeinp(Rng& rng, GenStats& st, bool deep = false)
 {
-    ProtoGenerator gen(rng, st);
-    int depth = int(rng.integer(0, 3));
+    ProtoGenerator gen(rng, st, deep);
+    int depth = deep ? 3 : int(rng.integer(0, 3));
     auto global = gen.make_global(depth);
     // A valid construction/tracking tolerance is a documented precondition of InputBuilder
     InputBuilder::Options opts;
